@@ -68,7 +68,7 @@ def _big_triple(rng, cls, n):
     """reactant = very long chain (gen.scale_pg); product: two backbone bonds broken, two bonds formed between distant
     atoms, one centre inverted, one descriptor gone; TS: all of these bonds plus one contact of its own"""
     r = gen.scale_pg(rng, cls, n)
-    busy = {x for d in r["astereo"].values() for x in d[1] if x is not None}
+    busy = {x for d in list(r["astereo"].values()) + list(r["bstereo"].values()) for x in d[1] if x is not None}  # (bond descriptors too: a broken backbone bond must not carry one)
     nb = sem.pg_neighbors(r)
     p = sem.pg_copy(r)
     free_bonds = [b for b in sorted(r["bonds"], key=sorted) if not (b & busy)]
